@@ -168,7 +168,11 @@ def apply_fault(df: Any, u: dict, ids: list[int], fault: dict) -> Any:
     v = fault["var"]
     kind = fault["kind"]
     n = len(df)
-    if kind == "cat_to_num":
+    if fault.get("allnull") and kind == "cat_to_num":
+        df[v] = pd.Series(np.full(n, np.nan), index=df.index, dtype="float64")  # entirely missing, read back as float64
+    elif fault.get("allnull") and kind == "num_to_text":
+        df[v] = pd.Series([None] * n, index=df.index, dtype=object)  # entirely missing text column
+    elif kind == "cat_to_num":
         df[v] = pd.Series(np.round(np.linspace(-2.0, 2.0, n) if n > 1 else np.array([0.5]), 3), index=df.index, dtype="float64")
     elif kind == "num_to_text":
         words = ["foo", "bar", "baz", "qux"]
